@@ -12,6 +12,7 @@ oracle_c15 — line protocol (sequential operations on one worker group):
   `where <k>`   → `w<i>` of the worker(s) caching k (`nowhere`)                      (T-observable)
   `keytype <t>` → `ok` (keys become mux.<t>; use with the map facade or one worker: eviction depends on routing)
   `backlog <k> <m> -` → `done` (m operations accepted behind a held callback, judged by monitors)
+  `queued <k> <m> -` → `done` (m operations of every kind queued behind a held callback, judged by monitors)
   `start`       → `ok` (calls `Start()` again)        `probe <keytype>` → `ok`
   `store <k>`   → `<v>` | `none`
   `stress <seed> <n> -` / `pile <k> <m> -` → `done`   (concurrent mix / same-key pile-up on the real code, judged by monitors only)
@@ -87,6 +88,10 @@ def step1 (st : St) (line : String) : St × String :=
     (match st with
      | some _ => (st, if ["int", "int64", "uint64", "intcrc", "int64crc", "uint64crc", "string"].contains t then "ok" else "bad-op")
      | none => (st, "bad-op"))
+  | ["queued", k, m, "-"] =>
+    (match st, parseKey k, natOf m with
+     | some _, some _, some m => if 1 ≤ m && m ≤ 5000 then (st, "done") else (st, "bad-op")
+     | _, _, _ => (st, "bad-op"))
   | ["backlog", k, m, "-"] =>
     (match st, parseKey k, natOf m with
      | some _, some _, some m => if 1 ≤ m && m ≤ 5000 then (st, "done") else (st, "bad-op")
